@@ -5,26 +5,26 @@
 
 namespace c14 {
 
-template <class T, T Shared::*M> void add_tm(const std::string& pre, const std::string& cls) {
+template <class T, Lazy<T> Shared::*M> void add_tm(const std::string& pre, const std::string& cls) {
   add(pre + ".forward", cls, 2, true, [](const Shared* S, Rng& r, Res& o, int pv) {
-    const T& t = S->*M; real x, y, gam, k; real lon0 = glon(r), lat = glat(r);
+    const T& t = (S->*M)(); real x, y, gam, k; real lon0 = glon(r), lat = glat(r);
     real lon = lon0 + (r.coin(0.8) ? r.uniform(-40, 40) : r.uniform(-180, 180));
     t.Forward(lon0, lat, lon, x, y, gam, k); o.d(x); o.d(y); o.d(gam); o.d(k);
     t.Forward(lon0, lat, lon, x, y); o.d(x); o.d(y); });
   add(pre + ".reverse", cls, 2, true, [](const Shared* S, Rng& r, Res& o, int pv) {
-    const T& t = S->*M; real lat, lon, gam, k; real a = t.EquatorialRadius();
+    const T& t = (S->*M)(); real lat, lon, gam, k; real a = t.EquatorialRadius();
     real x = a * r.uniform(-1, 1), y = a * r.uniform(-2, 2), lon0 = glon(r);
     t.Reverse(lon0, x, y, lat, lon, gam, k); o.d(lat); o.d(lon); o.d(gam); o.d(k);
     t.Reverse(lon0, x, y, lat, lon); o.d(lat); o.d(lon);
     o.d(t.EquatorialRadius()); o.d(t.Flattening()); o.d(t.CentralScale()); });
 }
-template <class T, T Shared::*M> void add_conic(const std::string& pre, const std::string& cls) {
+template <class T, Lazy<T> Shared::*M> void add_conic(const std::string& pre, const std::string& cls) {
   add(pre + ".forward", cls, 1, true, [](const Shared* S, Rng& r, Res& o, int pv) {
-    const T& t = S->*M; real x, y, gam, k; real lon0 = glon(r), lat = glat(r), lon = glon(r);
+    const T& t = (S->*M)(); real x, y, gam, k; real lon0 = glon(r), lat = glat(r), lon = glon(r);
     t.Forward(lon0, lat, lon, x, y, gam, k); o.d(x); o.d(y); o.d(gam); o.d(k);
     t.Forward(lon0, lat, lon, x, y); o.d(x); o.d(y); });
   add(pre + ".reverse", cls, 1, true, [](const Shared* S, Rng& r, Res& o, int pv) {
-    const T& t = S->*M; real lat, lon, gam, k; real a = t.EquatorialRadius();
+    const T& t = (S->*M)(); real lat, lon, gam, k; real a = t.EquatorialRadius();
     real x = a * r.uniform(-3, 3), y = a * r.uniform(-3, 3), lon0 = glon(r);
     t.Reverse(lon0, x, y, lat, lon, gam, k); o.d(lat); o.d(lon); o.d(gam); o.d(k);
     t.Reverse(lon0, x, y, lat, lon); o.d(lat); o.d(lon);
@@ -56,22 +56,22 @@ inline void register_b() {
     VAR(psv).Forward(np, lat, lon, x, y, gam, k); o.d(x); o.d(y); o.d(gam); o.d(k);
     VAR(psv).Forward(np, lat, lon, x, y); o.d(x); o.d(y); });
   add("polarstereo.reverse", "PolarStereographic", 1, true, [](const Shared* S, Rng& r, Res& o, int pv) {
-    real lat, lon, gam, k; bool np = r.coin(); real a = S->P.a, x = a * r.uniform(-3, 3), y = a * r.uniform(-3, 3);
+    real lat, lon, gam, k; bool np = r.coin(); real a = VAR(psv).EquatorialRadius(), x = a * r.uniform(-3, 3), y = a * r.uniform(-3, 3);
     VAR(psv).Reverse(np, x, y, lat, lon, gam, k); o.d(lat); o.d(lon); o.d(gam); o.d(k);
     VAR(psv).Reverse(np, x, y, lat, lon); o.d(lat); o.d(lon);
     o.d(VAR(psv).EquatorialRadius()); o.d(VAR(psv).Flattening()); o.d(VAR(psv).CentralScale()); });
 
   add("geocentric.forward", "Geocentric", 1, true, [](const Shared* S, Rng& r, Res& o, int pv) {
     real X, Y, Z; std::vector<real> M(9); real lat = glat(r), lon = glon(r), h = gh(r);
-    S->gc.Forward(lat, lon, h, X, Y, Z); o.d(X); o.d(Y); o.d(Z);
-    S->gc.Forward(lat, lon, h, X, Y, Z, M); o.d(X); o.d(Y); o.d(Z); for (real m : M) o.d(m); });
+    S->gc().Forward(lat, lon, h, X, Y, Z); o.d(X); o.d(Y); o.d(Z);
+    S->gc().Forward(lat, lon, h, X, Y, Z, M); o.d(X); o.d(Y); o.d(Z); for (real m : M) o.d(m); });
   add("geocentric.reverse", "Geocentric", 2, true, [](const Shared* S, Rng& r, Res& o, int pv) {
     real lat, lon, h; std::vector<real> M(9); real a = S->P.a; double u = r.u();
     real X = a * r.uniform(-2, 2), Y = a * r.uniform(-2, 2), Z = a * r.uniform(-2, 2);
     if (u < 0.1) { X = 0; Y = 0; } else if (u < 0.2) { X *= 1e-9; Y *= 1e-9; Z *= 1e-9; } else if (u < 0.25) { X = Y = Z = 0; }
-    S->gc.Reverse(X, Y, Z, lat, lon, h); o.d(lat); o.d(lon); o.d(h);
-    S->gc.Reverse(X, Y, Z, lat, lon, h, M); o.d(lat); o.d(lon); o.d(h); for (real m : M) o.d(m);
-    o.d(S->gc.EquatorialRadius()); o.d(S->gc.Flattening()); o.b(S->gc.Init()); });
+    S->gc().Reverse(X, Y, Z, lat, lon, h); o.d(lat); o.d(lon); o.d(h);
+    S->gc().Reverse(X, Y, Z, lat, lon, h, M); o.d(lat); o.d(lon); o.d(h); for (real m : M) o.d(m);
+    o.d(S->gc().EquatorialRadius()); o.d(S->gc().Flattening()); o.b(S->gc().Init()); });
   add("localcartesian.forward", "LocalCartesian", 1, true, [](const Shared* S, Rng& r, Res& o, int pv) {
     real x, y, z; std::vector<real> M(9); real lat = glat(r), lon = glon(r), h = gh(r);
     VAR(lcv).Forward(lat, lon, h, x, y, z); o.d(x); o.d(y); o.d(z);
@@ -84,15 +84,15 @@ inline void register_b() {
     o.d(VAR(lcv).LatitudeOrigin()); o.d(VAR(lcv).LongitudeOrigin()); o.d(VAR(lcv).HeightOrigin()); o.d(VAR(lcv).EquatorialRadius()); o.d(VAR(lcv).Flattening()); });
 
   add("ellipsoid.lat.forward", "Ellipsoid", 1, true, [](const Shared* S, Rng& r, Res& o, int pv) {
-    const Ellipsoid& e = S->ell; real phi = glat(r);
+    const Ellipsoid& e = S->ell(); real phi = glat(r);
     o.d(e.ParametricLatitude(phi)); o.d(e.GeocentricLatitude(phi)); o.d(e.RectifyingLatitude(phi)); o.d(e.AuthalicLatitude(phi));
     o.d(e.ConformalLatitude(phi)); o.d(e.IsometricLatitude(phi)); });
   add("ellipsoid.lat.inverse", "Ellipsoid", 1, true, [](const Shared* S, Rng& r, Res& o, int pv) {
-    const Ellipsoid& e = S->ell; real phi = glat(r);
+    const Ellipsoid& e = S->ell(); real phi = glat(r);
     o.d(e.InverseParametricLatitude(phi)); o.d(e.InverseGeocentricLatitude(phi)); o.d(e.InverseRectifyingLatitude(phi));
     o.d(e.InverseAuthalicLatitude(phi)); o.d(e.InverseConformalLatitude(phi)); o.d(e.InverseIsometricLatitude(r.uniform(-400, 400))); });
   add("ellipsoid.measures", "Ellipsoid", 1, true, [](const Shared* S, Rng& r, Res& o, int pv) {
-    const Ellipsoid& e = S->ell; real phi = glat(r);
+    const Ellipsoid& e = S->ell(); real phi = glat(r);
     o.d(e.QuarterMeridian()); o.d(e.Area()); o.d(e.Volume()); o.d(e.EquatorialRadius()); o.d(e.PolarRadius()); o.d(e.Flattening());
     o.d(e.SecondFlattening()); o.d(e.ThirdFlattening()); o.d(e.EccentricitySq()); o.d(e.SecondEccentricitySq()); o.d(e.ThirdEccentricitySq());
     o.d(e.CircleRadius(phi)); o.d(e.CircleHeight(phi)); o.d(e.MeridianDistance(phi)); o.d(e.MeridionalCurvatureRadius(phi));
@@ -114,7 +114,7 @@ inline void register_b() {
       add(nm, "DAuxLatitude", 0.25, true, [](const Shared* S, Rng& r, Res& o, int pv) {
         int q = pv % 1000, in = q / 10, out = q % 10; AuxAngle z1 = gaux(r);
         AuxAngle z2 = r.coin(0.3) ? AuxAngle::degrees(z1.degrees() + r.sign() * r.logu(1e-14, 1e-3)) : gaux(r);
-        o.d(S->daux.DConvert(in, out, z1, z2)); }, in * 10 + out);
+        o.d(S->daux().DConvert(in, out, z1, z2)); }, in * 10 + out);
     }
   add("aux.to-from-auxiliary", "AuxLatitude(exact)", 1, true, [](const Shared* S, Rng& r, Res& o, int pv) {
     int k = r.range(0, AuxLatitude::AUXNUMBER - 1); real diff = -1; int niter = -1; AuxAngle phi = gaux(r);
@@ -128,7 +128,7 @@ inline void register_b() {
     o.d(AuxLatitude::Clenshaw(true, std::sin(z), std::cos(z), c, 6)); o.d(AuxLatitude::Clenshaw(false, std::sin(z), std::cos(z), c, 6)); });
   add("daux.exact-differences", "DAuxLatitude", 1, true, [](const Shared* S, Rng& r, Res& o, int pv) {
     AuxAngle p1 = gaux(r); AuxAngle p2 = r.coin(0.3) ? AuxAngle::degrees(p1.degrees() + r.sign() * r.logu(1e-14, 1e-3)) : gaux(r);
-    o.d(S->daux.DParametric(p1, p2)); o.d(S->daux.DRectifying(p1, p2)); o.d(S->daux.DIsometric(p1, p2)); });
+    o.d(S->daux().DParametric(p1, p2)); o.d(S->daux().DRectifying(p1, p2)); o.d(S->daux().DIsometric(p1, p2)); });
   add("daux.statics", "DAuxLatitude", 0.5, false, [](const Shared*, Rng& r, Res& o, int) {
     real c[6]; for (real& x : c) x = r.uniform(-1, 1) * 1e-3; real z1 = r.uniform(-1.6, 1.6), z2 = z1 + r.sign() * r.logu(1e-12, 1);
     o.d(DAuxLatitude::DClenshaw(true, z2 - z1, std::sin(z1), std::cos(z1), std::sin(z2), std::cos(z2), c, 6));
